@@ -324,7 +324,36 @@ def r5_locals_shadow_vars(ctx):
     ctx.ob("C10.R5", f"{ANA}::_symbol_node::returns Local for a bound symbol", ANA, fn.lineno, bool(locs), "" if locs else "no Local node is produced")
 
 
-_GEN_NST = "        with old_st.new_frame(name, is_context_boundary) as st:\n            self._st.append(st)\n            try:\n                yield st\n            finally:\n                self._st.pop()\n"
+@rule("C10.R6", floor=2)
+def r6_def_installs_the_value(ctx):
+    """Var.intern binds the root whenever a value is supplied: the only guard on bind_root(val) is
+    the unbound-sentinel identity test. A guard that compares the new value with the current root
+    (== / !=) would skip the store for equal-but-distinct values (0 / false, 1 / 1.0, [1 2] /
+    '(1 2)) while the generated module global is updated: direct-linked and indirect reads diverge."""
+    var = P.find_def(ctx.py(RT), "Var")
+    if var is None:
+        raise AnalysisError("anchor vanished: runtime.Var")
+    it = P.methods(var).get("intern")
+    if it is None:
+        raise AnalysisError("anchor vanished: Var.intern")
+    binds = [c for c in P.calls(it) if P.un(c.func) == "var.bind_root"]
+    ctx.ob("C10.R6", f"{RT}::Var.intern::calls var.bind_root(val)", RT, it.lineno, len(binds) == 1 and P.un(binds[0].args[0]) == "val" if binds else False,
+           "" if binds else "Var.intern no longer binds the root")
+    for c in binds:
+        tests = []
+        for a in P.ancestors(c):
+            if a is it:
+                break
+            if isinstance(a, ast.If):
+                tests.append(a.test)
+        bad = [cmp_ for t in tests for cmp_ in ast.walk(t) if isinstance(cmp_, ast.Compare) and any(isinstance(o, (ast.Eq, ast.NotEq)) for o in cmp_.ops)]
+        extra = [t for t in tests if P.un(t) not in ("val is not cls.__UNBOUND_SENTINEL",)]
+        ok = not bad and not extra
+        ctx.ob("C10.R6", f"{RT}::Var.intern::bind_root guarded only by the unbound sentinel", RT, c.lineno, ok,
+               "" if ok else f"bind_root(val) is skipped under `{P.un((bad or extra)[0])}`: a redefinition with an equal-but-distinct value leaves the Var's root stale while the module global changes")
+
+
+_GEN_NST ="        with old_st.new_frame(name, is_context_boundary) as st:\n            self._st.append(st)\n            try:\n                yield st\n            finally:\n                self._st.pop()\n"
 
 SELFTEST = [
     {"name": "new colliding munge entry", "file": UTIL, "expect": "C10.R1",
